@@ -10,6 +10,7 @@ import (
 	"io"
 	"strconv"
 	"strings"
+	"time"
 
 	"harness/engine"
 
@@ -25,6 +26,30 @@ type Scenario struct {
 	// fault injection (C19): fail the K-th Write (1-based); Persist: every write from K on.
 	FaultK  int  `json:"faultk,omitempty"`
 	Persist bool `json:"persist,omitempty"`
+	// WriteVisible: every Write to the command's output writer is a scheduling point, and a write still
+	// pending when the command has returned without error is reported (output lost at process exit).
+	WriteVisible bool `json:"writevisible,omitempty"`
+}
+
+type visibleWriter struct{ w io.Writer }
+
+func (v visibleWriter) Write(p []byte) (int, error) {
+	zzvs.Object("out", "out.Write")
+	return v.w.Write(p)
+}
+
+const lateWrite = "LATE-WRITE"
+
+func lateWriteMark(r *zzvs.Result, o Obs) string {
+	if r.Outcome != "returned" || o.HasErr {
+		return ""
+	}
+	for _, l := range r.Leftover {
+		if strings.HasSuffix(l, "@out.Write") {
+			return "|" + lateWrite + ": goroutine " + l + " had not finished writing the output when the command returned"
+		}
+	}
+	return ""
 }
 
 type faultWriter struct {
@@ -88,6 +113,9 @@ func (s *Scenario) execStarving(starve string) (*zzvs.Result, string) {
 	if s.FaultK > 0 {
 		wrap = func(w io.Writer) io.Writer { fw = &faultWriter{w: w, k: s.FaultK, persist: s.Persist}; return fw }
 	}
+	if s.WriteVisible && wrap == nil {
+		wrap = func(w io.Writer) io.Writer { return visibleWriter{w} }
+	}
 	var buf bytes.Buffer
 	var err error
 	c := s.Call
@@ -115,6 +143,9 @@ func (s *Scenario) execStarving(starve string) (*zzvs.Result, string) {
 	if fw != nil {
 		obs = fmt.Sprintf("fired=%v|", fw.fired) + obs
 	}
+	if s.WriteVisible {
+		obs += lateWriteMark(r, o)
+	}
 	return r, obs
 }
 
@@ -126,8 +157,14 @@ func (s *Scenario) execFn() engine.ExecFn {
 		if s.FaultK > 0 {
 			wrap = func(w io.Writer) io.Writer { fw = &faultWriter{w: w, k: s.FaultK, persist: s.Persist}; return fw }
 		}
+		if s.WriteVisible && wrap == nil {
+			wrap = func(w io.Writer) io.Writer { return visibleWriter{w} }
+		}
 		r, o := s.Call.CtlW(prefix, wrap)
 		obs := o.String()
+		if s.WriteVisible {
+			obs += lateWriteMark(r, o)
+		}
 		if r.Outcome != "returned" {
 			obs += "|" + o.Detail
 		}
@@ -253,6 +290,7 @@ func planSched(scens []Scenario, depth int, judge func(sc *Scenario, st *engine.
 // (the violation is then found by the one-preemption pre-pass or within the cap, and the evidence says
 // exhaustive=false).
 var schedJobCap = 0
+var schedJobTime time.Duration
 
 func accountStats(sc *Scenario, st *engine.Stats, res *engine.JobResult) {
 	res.Evals += st.Execs
@@ -290,6 +328,9 @@ func execSched(scens []Scenario, job string, judge func(sc *Scenario, st *engine
 		explorers[key] = ex
 	}
 	ex.St = engine.NewStats()
+	if schedJobTime > 0 {
+		ex.Opt.Until = time.Now().Add(schedJobTime)
+	}
 	ex.Subtree(parsePrefix(j.Prefix))
 	res := &engine.JobResult{}
 	accountStats(sc, ex.St, res)
@@ -327,6 +368,10 @@ func canonJudge(prefix string) func(sc *Scenario, st *engine.Stats, res *engine.
 			canon[sc.Name] = want
 		}
 		for obs, n := range st.Outcomes {
+			if strings.Contains(obs, lateWrite) {
+				res.Violate(prefix+":write-after-return", fmt.Sprintf("scenario %s: %d explored execution(s): %.400s", sc.Name, n, obs), schedCase{Scenario: *sc, Trace: st.FirstTrace[obs], Obs: obs})
+				continue
+			}
 			if obs == want {
 				res.Nontrivial += n
 				continue
@@ -403,6 +448,14 @@ func schedPair(name string, mk func(n int) Call, extraSizes ...int) []Scenario {
 		}
 		out = append(out, Scenario{Name: fmt.Sprintf("%s/n%d/t2", name, n), Family: name, Call: c, Mode: mode})
 	}
+	// output writes as visible operations (3 records, every execution with <=2 non-default choices): no write
+	// may still be pending when the command returns, whatever the schedule
+	c := mk(3)
+	if c.Threads == 0 {
+		c.Threads = 2
+	}
+	c.NCPU = 2
+	out = append(out, Scenario{Name: fmt.Sprintf("%s/n3/t2/writes-visible", name), Family: name, Call: c, Mode: "D2M0", WriteVisible: true})
 	return out
 }
 
